@@ -38,6 +38,8 @@ def run(tier, seed):
                     cmds.append([exe, fn, str(NG), str(NI), str(k), "0" if k <= (3 if NI > 1 else 5) else "1"])
     for N in (4, 8):
         cmds.append([exe, "tsimpr", str(N)])
+    for N in (4, 5, 8, 9):   # requested step w/(N+d), d symbolic in [-0.2, 0.7]: not commensurate with the interval
+        cmds.append([exe, "tsimpr", str(N), "1"])
     for mm in (1, 2):
         cmds.append([exe, "tgold", str(mm)])
     for M in (1, 2, 3):
@@ -70,14 +72,18 @@ def run(tier, seed):
                 key = "%s:%s" % (x["unit"], x["what"][:80])
                 a = r["cmd"][1:]
                 confirmed, natout = True, None
-                if a[0] in ("dgmlt1", "dgmlt2"):
+                if a[0] in ("dgmlt1", "dgmlt2", "tsimpr"):
                     if nat is None:
-                        objs = vlib.native_objects(wd, ["dgmlt1", "dgmlt2"])
+                        objs = vlib.native_objects(wd, ["dgmlt1", "dgmlt2", "tsimpr"])
                         o = vlib.compile_objs([(os.path.join(VERIF, "replay", "replay_c16.cc"), os.path.join(wd, "nat", "replay_c16.o"), ["-std=c++11", "-O1", "-I" + REPO, "-I" + os.path.join(wd, "geninc")], "g++")])
                         nat = os.path.join(wd, "replay_c16")
                         vlib.run(["g++"] + objs + o + ["-o", nat, "-lm"])
                     oth = x["model"]["others"]
-                    rc, out, err, dt = vlib.run([nat, a[0], a[1], a[2], a[3], "%.17g" % (oth.get("a") or 0.0), "%.17g" % (oth.get("b") or 0.0)], check=False)
+                    if a[0] == "tsimpr":
+                        argv = [nat, "tsimpr", a[1], a[2] if len(a) > 2 else "0"] + ["%.17g" % (oth.get(k) or 0.0) for k in ("c0", "c1", "c2", "c3", "a", "w", "d")]
+                    else:
+                        argv = [nat, a[0], a[1], a[2], a[3], "%.17g" % (oth.get("a") or 0.0), "%.17g" % (oth.get("b") or 0.0)]
+                    rc, out, err, dt = vlib.run(argv, check=False)
                     confirmed, natout = rc == 1, out.strip()
                 os.makedirs(os.path.join(wd, "replay"), exist_ok=True)
                 f = os.path.join(wd, "replay", "C16_%03d.json" % n)
